@@ -771,7 +771,15 @@ class Run:
                     names = [ast.unparse(x) for x in h.type.elts]
                 else:
                     names = [ast.unparse(h.type)]
-                if any(exc_matches(e.exc, n) for n in names):
+                caught = any(exc_matches(e.exc, n) for n in names)
+                if not caught and e.exc == 'CallbackError' and self.opts.fault_mode:
+                    # the injected fault stands for ANY exception a failing callback may raise: a handler for a particular
+                    # exception class may or may not catch it - both are explored; a fault that is caught and not re-raised
+                    # is recorded (the exit obligations then ask whether the failure was swallowed)
+                    if self.choose_free('fault_caught_by_handler'):
+                        caught = True
+                        self.swallowed_faults = getattr(self, 'swallowed_faults', 0) + 1
+                if caught:
                     if h.name:
                         self.env[h.name] = SKey(z3.Const(fresh_name('exc'), sym.KeyS))
                     self.exec_block(h.body)
@@ -931,6 +939,8 @@ class Run:
             return STuple([self.havoc_like(i, base) for i in v.items])
         if v is NONE:
             return NONE
+        if getattr(v, 'typ', None) is None:
+            raise Unsupported(f"a loop modifies {base}, a value of a kind that has no symbolic type ({type(v).__name__})")
         return self.fresh(v.typ, base)
 
     # ---- assignment --------------------------------------------------------------------------------
@@ -1272,7 +1282,11 @@ class Run:
 
     def compare(self, op, a, b):
         if op in ('Is', 'IsNot'):
-            if a is NONE or b is NONE:
+            if (a is NONE and isinstance(b, SVal)) or (b is NONE and isinstance(a, SVal)):
+                # an opaque value may BE None (e.g. a target that was not supplied): None is one particular value
+                v = b if a is NONE else a
+                r = v.t == z3.Const('none_val', sym.ValS)
+            elif a is NONE or b is NONE:
                 r = z3.BoolVal((a is NONE) and (b is NONE))
             else:
                 r = self.equal(a, b)
